@@ -126,6 +126,9 @@ class WrapperModel(Model):
             node = m.consts[name]
             if isinstance(node, ast.Constant):
                 return C(node.value)
+            # a module-level table of constants (names driving a loop)
+            if isinstance(node, (ast.Tuple, ast.List)) and all(isinstance(e, ast.Constant) for e in node.elts):
+                return ('tuple', tuple(C(e.value) for e in node.elts))
         return None
 
     def literal(self, v, st, node):
@@ -191,6 +194,9 @@ class WrapperModel(Model):
             st.emit('KEYGEN', (C(step),), line, val=v)
             outs.append(R(st, v))
             return outs
+        # --- setattr(obj, 'name', value) with a constant name is obj.name = value
+        if f == ('lib', 'setattr') and len(args) == 3 and not kws and is_const(args[1]) and isinstance(args[1][1], str):
+            return self.engine.attr_store(args[0], args[1][1], args[2], st, node)
         # --- container constructors (only meaningful in __call__)
         if f[0] == 'lib' and f[1] in ('collections.deque', 'deque') or ln == 'deque':
             self.nbk += 1
